@@ -166,6 +166,11 @@ func (w *z15World) do(q z15Req) {
 		code, body = w.call("POST", "/api/generate", api.GenerateRequest{Model: q.A, Prompt: "hello", Stream: &z15Stream})
 	case "generate0":
 		code, body = w.call("POST", "/api/generate", api.GenerateRequest{Model: q.A, Prompt: "hello", Stream: &z15Stream, KeepAlive: &api.Duration{Duration: 0}})
+	case "generate0-gone":
+		// keep_alive 0 and a client that goes away while the request is being served
+		code, body = w.callGone("POST", "/api/generate", api.GenerateRequest{Model: q.A, Prompt: "hello", Stream: &z15Stream, KeepAlive: &api.Duration{Duration: 0}}, false)
+	case "generate-gone":
+		code, body = w.callGone("POST", "/api/generate", api.GenerateRequest{Model: q.A, Prompt: "hello", Stream: &z15Stream}, false)
 	case "chat":
 		code, body = w.call("POST", "/api/chat", api.ChatRequest{Model: q.A, Messages: []api.Message{{Role: "user", Content: "hello"}}, Stream: &z15Stream})
 	case "embed":
@@ -264,6 +269,9 @@ func z15Body(sc z15Scenario) func() {
 		gin.SetMode(gin.ReleaseMode)
 		gin.DefaultWriter = io.Discard
 		gin.DefaultErrorWriter = io.Discard
+		if gos.Getenv("VERIF_DEBUG_DUMP") != "" {
+			gin.DefaultErrorWriter = gos.Stderr
+		}
 		w.h, err = s.GenerateRoutes(nil)
 		if err != nil {
 			panic(err)
@@ -344,6 +352,8 @@ func z15Scenarios(thorough bool) []z15Scenario {
 		{Name: "generate|ps", Reqs: []z15Req{{Kind: "generate", A: "a"}, {Kind: "ps"}}},
 		{Name: "generate0|ps", Reqs: []z15Req{{Kind: "generate0", A: "a"}, {Kind: "ps"}}},
 		{Name: "unload|ps", Loaded: []string{"a"}, Reqs: []z15Req{{Kind: "unload", A: "a"}, {Kind: "ps"}}},
+		{Name: "generate0-gone", Cap: 2, Reqs: []z15Req{{Kind: "generate0-gone", A: "a"}}},
+		{Name: "generate-gone|generate", Reqs: []z15Req{{Kind: "generate-gone", A: "a"}, {Kind: "generate", A: "a"}}},
 		{Name: "generate|generate", Reqs: []z15Req{{Kind: "generate", A: "a"}, {Kind: "generate", A: "a"}}},
 		{Name: "generate-a|generate-b max1", Env: map[string]string{"OLLAMA_MAX_LOADED_MODELS": "1"}, Reqs: []z15Req{{Kind: "generate", A: "a"}, {Kind: "generate", A: "b"}}},
 		{Name: "chat|unload", Loaded: []string{"a"}, Reqs: []z15Req{{Kind: "chat", A: "a"}, {Kind: "unload", A: "a"}}},
